@@ -29,6 +29,28 @@ CHECKS = {
        "(partial). In decimal geometry value oracles avoid exactly coinciding pixel edges (GDAL float noise changes validity "
        "there); the dyadic family covers them exactly.",
   tech="Lean 4 proof (algebra over Q, list induction) + constructed-oracle differential runs", ref='7 C02'),
+ 'C03': dict(
+  text="Proof (Lean 4): a corrected pixel is valid only if the source pixel is, unconditionally, on both processing grids "
+       "(corrected_valid_imp_src_valid*); conversely a valid source pixel is valid in the corrected image when its centre's "
+       "processing pixel carries parameters and the up-sampling weights are non-negative (src_valid_imp_corrected_valid), with "
+       "the chain behind the premise: a normalised mean over positive weights exists and is positive on positive data, the "
+       "pixel is in its own kernel window, so the gain fit exists on positive data (12 theorems). Tied to the code by ~45 (quick) / "
+       "900 (thorough) real fusions over validity patterns x geometry x models x kernels x grids x blocks x output nodata/dtype x "
+       "up-sampling: subset always, equality under the hypotheses; plus the resampler validity rules against GDAL.",
+  note="GDAL validity rules R1 (average) / R2 (centre rule for up-sampling) are modelled and measured; no-gap tiling is C06's; "
+       "re-masking after rounding is C13's. The converse is proved per pixel from explicit premises, not as one end-to-end theorem.",
+  tech="Lean 4 proof (order/field facts over Q, list induction) + differential mask comparison on real fusions", ref='7 C03'),
+ 'C05': dict(
+  text="Proof (Lean 4): overlap_for_kernel = ceil(k/2) = radius + 1; the kernel window of every pixel within one pixel of a "
+       "block's output window lies inside its input window (all A, B, s, v >= k/2+1); the fit at a pixel of a sub-block that "
+       "contains its clipped kernel window equals the fit over the whole processing window, for all three models "
+       "(fit_depends_only_on_window, via a crop lemma on window lists); bilinear/nearest support stays within one pixel of "
+       "the centre pixel and has non-negative normalised weights (5 theorems). Tied to the code by pairs of real fusions (1 block vs "
+       "1..6 halvings): parameter images identical (bit-identical on dyadic integer-exact data), corrected identical for nearest/"
+       "bilinear/source grid, cubic-spline differences confined to one processing pixel of a seam; and overlap_for_kernel vs model.",
+  note="gain-blk-offset and in-painting have a per-block term and are excluded (partial), as the property states. The confinement "
+       "for 4x4 kernels is measured, not proved.",
+  tech="Lean 4 proof (omega on windows, list congruence) + partition-pair differential runs", ref='7 C05'),
  'C06': dict(
   text="Proof (Lean 4): for all origins, pixel sizes, image sizes, block lengths s>0 and overlaps v>=0 the processing-grid "
        "output windows partition the processing window, the rounded other-grid output windows partition [round A, round B) "
@@ -54,6 +76,16 @@ CHECKS = {
        "std / percentile scale (variance_scale is proved; the percentile is not); GDAL warp is a normalised weighted mean. Integer "
        "output dtypes are excluded (rounding is not homogeneous).",
   tech="Lean 4 proof (field algebra over Q, case analysis on Option/ite) + bit-identity differential runs", ref='7 C07'),
+ 'C08': dict(
+  text="Proof (Lean 4): under a dataset mask a hidden value reads as invalid whatever is stored; NaN nodata, numeric nodata, "
+       "internal mask and alpha band encodings of one logical pixel read to the same pixel for any hidden value "
+       "(encodings_agree); blocks that agree on masks and on jointly valid values give identical fits at every pixel for all "
+       "models, and identical inputs to the block normalisation (fit_congr_on_mask, blocknorm_congr_on_mask) (6 theorems). Tied to the "
+       "code by writing one logical pair in 4 encodings x hidden values (0, 3.4e38, -1e30, NaN, random; uint8 alpha/mask/nodata) "
+       "and requiring bit-identical corrected image, parameter image and comparison statistics; and by from_rio_dataset vs readPx.",
+  note="How GDAL exposes masks (alpha honoured only for 1/3-band Byte/UInt16 + alpha) is GDAL's rule; WarpedVRT mask handling "
+       "is not modelled.",
+  tech="Lean 4 proof (case analysis, list congruence) + bit-identity differential runs across encodings", ref='7 C08'),
  'C16': dict(
   text="Proof (Lean 4): the repaired covers_bounds predicate accepts iff the source footprint is contained in the reference "
        "footprint on each axis (covers_iff_contains), overhang on any side by any amount is rejected, the same grid is accepted, "
@@ -64,6 +96,17 @@ CHECKS = {
   note="Cross-CRS footprints are not modelled (WarpedVRT geometry is GDAL's); float noise of flush placements in decimal "
        "geometry is absorbed by the 1e-6 px tolerance of the repaired predicate, which the exact model ignores.",
   tech="Lean 4 proof (linear integer arithmetic, decide over a finite table) + differential correspondence run", ref='7 C16'),
+ 'C17': dict(
+  text="Proof (Lean 4): erosion characterisation, the full-coverage definition (kept iff the pixel and every pixel of the "
+       "(kh+2)x(kw+2) window are inside, covered by valid pixels only and carry parameters), subset of the joint mask, strictness "
+       "(first row/column never survives), and block invariance of the erosion on sub-blocks whose overlap equals the grown radius "
+       "(partial_block_invariant, grown_radius_eq_overlap) (6 theorems). Tied to the code by real fusions with mask_partial=True: the "
+       "corrected dataset mask must equal the definition evaluated by the model (average cover of the zero-padded mask >= 1, joint "
+       "mask, erode, nearest back to the source grid) on the whole window, be a strict subset of the source mask, and not depend "
+       "on the partition.",
+  note="Known finding D8 (open): in geometries where source pixel centres lie exactly on reference pixel edges the mask depends "
+       "on the block partition (nearest-neighbour tie + erosion reach at seams). GDAL nearest tie-breaking is not modelled.",
+  tech="Lean 4 proof (omega, Bool/List.all reasoning) + differential mask comparison against the model definition", ref='7 C17'),
  'C20': dict(
   text="Proof (Lean 4): for every integer window with non-negative size the boundless read succeeds (read_total) and returns "
        "the image pixel at its own location where the window overlaps the image and nodata elsewhere (read_spec), with the "
